@@ -238,6 +238,9 @@ def r3_zip_enumerate(text):
             n += 1
             continue
         else:
+            copied = enum and expr.endswith('.iter().copied()')
+            if copied:
+                expr = expr[:-len('.copied()')]
             if not enum or not (expr.endswith('.iter()') or expr.endswith('.into_iter()')):
                 raise Unsupported('R3: iterator expression ' + expr)
             X = expr[:-len('.iter()')] if expr.endswith('.iter()') and not expr.endswith('.into_iter()') else expr[:-len('.into_iter()')]
@@ -245,7 +248,7 @@ def r3_zip_enumerate(text):
             if not mp:
                 raise Unsupported('R3: enumerate element pattern ' + pat)
             ra, A = mp.groups()
-            ea = f'{X}[{idx}]' if ra else f'&{X}[{idx}]'
+            ea = f'{X}[{idx}]' if (ra or copied) else f'&{X}[{idx}]'
             new_header = f'for {idx} in 0..{X}.len() {{ let {A} = {ea};'
         nl = header.count('\n')
         text = text[:toks[kf].start] + ('\n' * nl) + new_header + text[toks[ob].end:]
@@ -391,14 +394,15 @@ def r21_let_map_collect(text):
     `let mut NAME__o = Vec::new(); for m__N in 0..X.len() { let V = X[m__N]; NAME__o.push(E); } let NAME: Vec<T> = NAME__o;`"""
     n = 0
     while True:
-        m = re.search(r'(?m)^(\s*)let (\w+): (Vec<\w+>) = (\w+)\.into_iter\(\)\.map\(\|(\w+)\| ([^|;{}]+)\)\.collect\(\);[ \t]*$', text)
+        m = re.search(r'(?m)^(\s*)let (\w+): (Vec<\w+>) =\s*(\w+)\.into_iter\(\)\.map\(\|(\w+)\| ([^|;{}]+)\)\.collect\(\);[ \t]*$', text)
         if not m:
             return text, n
         n += 1
         ind, name, ty, x, v, e = m.groups()
         k = f'm__{n}'
+        nl = text[m.start():m.end()].count('\n')
         new = (f'{ind}let mut {name}__o = Vec::new(); for {k} in 0..{x}.len() {{ let {v} = {x}[{k}]; {name}__o.push({e}); }} '
-               f'let {name}: {ty} = {name}__o;')
+               f'let {name}: {ty} = {name}__o;' + '\n' * nl)
         text = text[:m.start()] + new + text[m.end():]
 
 
